@@ -183,6 +183,10 @@ def main(run, tier):
     wconc = Concrete('calmjs.parse.sourcemap:write', _wcall, _wpost, lambda t_, s_: ((fr,) for fr in synthetic_streams('quick', s_)),
                      bound='the synthetic fragment streams of rt.sourcemap.synthetic, normalize off')
     verify_functions(run, csm.build(sm), {}, {wconc.qualname: wconc}, tier=tier)
+    # the small pieces the contracts above take as given (contracts/smsmall.py): an empty Names table, names listed in index order,
+    # the book default_book builds (generated columns from 0, source lines / columns from 1)
+    import contracts.smsmall as csmall
+    verify_functions(run, csmall.build(sm), {}, {}, tier=tier)
     # ---- bounded: normalize_mapping_line against its decode-view post-condition, exhaustively over short lines
     from spec import sourcemap_v3 as _v3
     segs = [(), (0,), (2,)] + [(dc, ds, dl, dsc) for dc in (0, 3) for ds in (0, 1, -1) for dl in (0, 1, -1) for dsc in (0, 3, -2)]
